@@ -111,27 +111,69 @@ func getPki() *pki {
 	return thePki
 }
 
+// cfgFromFiles: certificate, key and CA are given to the configuration as file names instead of text (set per case by the c05 op)
+var cfgFromFiles bool
+var cfgFiles []string
+
+func pemFile(b []byte) string {
+	f, err := ioutil.TempFile("", "verif-pem-*.pem")
+	if err != nil {
+		panic(err)
+	}
+	f.Write(b)
+	f.Close()
+	cfgFiles = append(cfgFiles, f.Name())
+	return f.Name()
+}
+
+func removeCfgFiles() {
+	for _, n := range cfgFiles {
+		os.Remove(n)
+	}
+	cfgFiles = nil
+}
+
+func fillCfg(c *cert.Config, certPem, keyPem, caPem []byte) {
+	if cfgFromFiles {
+		if certPem != nil {
+			c.CertificateFile, c.PrivateKeyFile = pemFile(certPem), pemFile(keyPem)
+		}
+		if caPem != nil {
+			c.CaCertificateFile = pemFile(caPem)
+		}
+		return
+	}
+	if certPem != nil {
+		c.Certificate, c.PrivateKey = string(certPem), string(keyPem)
+	}
+	if caPem != nil {
+		c.CaCertificate = string(caPem)
+	}
+}
+
 // serverCfg: a cert.ServerConfig holding the named certificate ("" = none) and the test CA.
 func serverCfg(name string, requireClientCert bool) *cert.ServerConfig {
 	p := getPki()
 	c := &cert.ServerConfig{RequireClientCert: requireClientCert}
 	if name != "" && name != "none" {
-		c.Certificate = string(p.certs[name][0])
-		c.PrivateKey = string(p.certs[name][1])
+		fillCfg(&c.Config, p.certs[name][0], p.certs[name][1], p.caPEM)
+	} else {
+		fillCfg(&c.Config, nil, nil, p.caPEM)
 	}
-	c.CaCertificate = string(p.caPEM)
 	return c
 }
 
 func clientCfg(clientCert string, insecure bool, withCa bool) *cert.ClientConfig {
 	p := getPki()
 	c := &cert.ClientConfig{InsecureSkipVerify: insecure}
-	if clientCert != "" && clientCert != "none" {
-		c.Certificate = string(p.certs[clientCert][0])
-		c.PrivateKey = string(p.certs[clientCert][1])
-	}
+	var ca []byte
 	if withCa {
-		c.CaCertificate = string(p.caPEM)
+		ca = p.caPEM
+	}
+	if clientCert != "" && clientCert != "none" {
+		fillCfg(&c.Config, p.certs[clientCert][0], p.certs[clientCert][1], ca)
+	} else {
+		fillCfg(&c.Config, nil, nil, ca)
 	}
 	return c
 }
